@@ -11,7 +11,7 @@ VARIABLES cfg, phase
 vars == <<cfg, phase>>
 Emit == "EMIT" \in DOMAIN IOEnv /\ IOEnv.EMIT = "1"
 
-K1 == TCls("K1")  K2 == TCls("K2")  K3 == TCls("K3")  W == TCls("W")  H == TCls("H")
+K1 == TCls("K1")  K2 == TCls("K2")  K4 == TCls("K4")  K3 == TCls("K3")  W == TCls("W")  H == TCls("H")
 N == TCls("N")  H2 == TCls("H2")
 D(id, s, t, catch, bad) == Cv(id, s, t, catch, bad, <<>>, "none", "func")
 
@@ -39,6 +39,7 @@ tw(inh, form)  == S("tw",  K1, W, inh, form)
 tk3(inh, form) == S("tk3", K1, K3, inh, form)
 tlk(inh, form) == S("tlk", K1, TList(K3), inh, form)
 ts2 == S("ts2", K2, TStr, "none", "func")
+ts2ni == S("ts2", K2, TStr, "false", "obj")      \* the same converter registered as Conversion(..., inherited=False)
 ti3 == S("ti3", K3, TInt, "none", "func")
 tk3sub == [tk3("none", "obj") EXCEPT !.id = "tk3", !.sub = <<S("ts", K3, TStr, "none", "func")>>]
 
@@ -48,6 +49,8 @@ CT(xd, xs) ==
   [K1 |-> [kind |-> "opq", sup |-> "", fields |-> <<>>],
    K2 |-> [kind |-> "opq", sup |-> "K1", fields |-> <<>>],
    K3 |-> [kind |-> "opq", sup |-> "", fields |-> <<>>],
+   \* a third level K4 < K2 < K1: a non-inheritable serializer of K2 must not hide the inheritable one of K1
+   K4 |-> [kind |-> "opq", sup |-> "K2", fields |-> <<>>],
    W  |-> [kind |-> "data", sup |-> "", fields |-> <<[name |-> "w", t |-> TInt, dconv |-> <<>>, sconv |-> <<>>]>>],
    H  |-> [kind |-> "data", sup |-> "", fields |-> <<[name |-> "x", t |-> K1, dconv |-> xd, sconv |-> xs],
                                                      [name |-> "xs", t |-> TList(K1), dconv |-> <<>>, sconv |-> <<>>]>>],
@@ -59,8 +62,8 @@ CT(xd, xs) ==
 Seqs2(P) == {<<>>} \cup {<<a>> : a \in P} \cup {s \in P \X P : s[1] # s[2]}
 
 DPool == IF Tier = "quick" THEN {fi, fs, fk3, fw} ELSE {fi, fic, fs, fl, fw, fk3}
-EnvsD == {[ct |-> CT(xd, <<>>), regD |-> [K1 |-> r1, K2 |-> r2, K3 |-> <<f3>>, W |-> <<>>, H |-> <<>>, N |-> <<>>, H2 |-> <<>>],
-           regS |-> [K1 |-> <<>>, K2 |-> <<>>, K3 |-> <<>>, W |-> <<>>, H |-> <<>>, N |-> <<>>, H2 |-> <<>>], via |-> via]
+EnvsD == {[ct |-> CT(xd, <<>>), regD |-> [K1 |-> r1, K2 |-> r2, K3 |-> <<f3>>, K4 |-> <<>>, W |-> <<>>, H |-> <<>>, N |-> <<>>, H2 |-> <<>>],
+           regS |-> [K1 |-> <<>>, K2 |-> <<>>, K3 |-> <<>>, K4 |-> <<>>, W |-> <<>>, H |-> <<>>, N |-> <<>>, H2 |-> <<>>], via |-> via]
             : r1 \in Seqs2(DPool) \cup {<<fh>>, <<fh, fi>>, <<fs, fh>>}, r2 \in {<<>>, <<f2>>}, xd \in {<<>>, <<fs>>}, via \in {"reg", "param"}}
 DynsD == {<<>>, <<IdAll>>, <<IdOf(K1)>>, <<fs>>, <<fi, fs>>, <<f2>>, <<fk3sub>>, <<fs, IdAll>>}
 \* for the deque roots: a dynamic conversion meant for the ELEMENTS, behind the deque's own conversion
@@ -70,14 +73,14 @@ DqRoots == {TDeque(K3), TDeque(K1), TList(TDeque(K3))}
 
 SPool(inh, form) == IF Tier = "quick" THEN {ti(inh, form), tl(inh, form), tk3(inh, form)}
                     ELSE {ti(inh, form), ts(inh, form), tl(inh, form), tw(inh, form), tk3(inh, form), tlk(inh, form)}
-EnvsS == {[ct |-> CT(<<>>, xs), regD |-> [K1 |-> <<>>, K2 |-> <<>>, K3 |-> <<>>, W |-> <<>>, H |-> <<>>, N |-> <<>>, H2 |-> <<>>],
-           regS |-> [K1 |-> r1, K2 |-> r2, K3 |-> <<ti3>>, W |-> <<>>, H |-> <<>>, N |-> <<>>, H2 |-> <<>>], via |-> via]
+EnvsS == {[ct |-> CT(<<>>, xs), regD |-> [K1 |-> <<>>, K2 |-> <<>>, K3 |-> <<>>, K4 |-> <<>>, W |-> <<>>, H |-> <<>>, N |-> <<>>, H2 |-> <<>>],
+           regS |-> [K1 |-> r1, K2 |-> r2, K3 |-> <<ti3>>, K4 |-> <<>>, W |-> <<>>, H |-> <<>>, N |-> <<>>, H2 |-> <<>>], via |-> via]
             : r1 \in {<<>>} \cup {<<c>> : c \in UNION {SPool(f[1], f[2]) : f \in Forms}},
-              r2 \in {<<>>, <<ts2>>}, xs \in {<<>>, <<ts("none", "func")>>}, via \in {"reg", "param"}}
+              r2 \in {<<>>, <<ts2>>, <<ts2ni>>}, xs \in {<<>>, <<ts("none", "func")>>}, via \in {"reg", "param"}}
 DynsS == {<<>>, <<IdAll>>, <<IdOf(K1)>>, <<ts("none", "func")>>, <<tl("none", "func")>>, <<tk3sub>>,
           <<S("ts2", K2, TStr, "none", "func"), ti("none", "func")>>}
 
-Roots == {K1, K2, TList(K1), TOpt(K1), TUni(<<K1, TInt>>), TDict(K1), TTup(<<K1, TInt>>), H, TList(H), TUni(<<K3, K1>>), N, TList(N)}
+Roots == {K1, K2, K4, TList(K1), TOpt(K1), TUni(<<K1, TInt>>), TDict(K1), TTup(<<K1, TInt>>), H, TList(H), TUni(<<K3, K1>>), N, TList(N)}
 
 \* ---- data for deserialization
 Leaves == {DInt(1), DInt(13), DStr("a"), DStr("bad"), DNull, DArr(<<DInt(1), DInt(2)>>), DArr(<<DInt(13)>>),
@@ -109,7 +112,8 @@ ValuesFor(T) ==
     [] T.k = "list" /\ T.e = N   -> {VList(<<NVal("K1")>>)}
     [] T.k = "deque" -> {[k |-> "deque", a |-> <<Opq(T.e.n, "mk", DInt(4)), Opq(T.e.n, "mk", DInt(5))>>], [k |-> "deque", a |-> <<>>]}
     [] T.k = "list" /\ T.e.k = "deque" -> {VList(<< [k |-> "deque", a |-> <<Opq("K3", "mk", DInt(4))>>] >>)}
-    [] T.k = "cls" /\ T.n = "K2" -> {Inst("K2")}
+    [] T.k = "cls" /\ T.n = "K2" -> {Inst("K2"), Inst("K4")}
+    [] T.k = "cls" /\ T.n = "K4" -> {Inst("K4")}
     [] T.k = "cls" /\ T.n = "H"  -> {HVal("K1"), HVal("K2")}
     [] T.k = "list" /\ T.e = H   -> {VList(<<HVal("K1")>>), VList(<<>>)}
     [] T.k = "list"  -> {VList(<<Inst("K1"), Inst("K2")>>), VList(<<>>)}
